@@ -104,7 +104,9 @@ def make_inputs(desc, ds):
     V = gen.unique_data(shape, start=100001)
     mode = desc["mode"]
     if mode == "scalar":
-        dY, dX, va = "y", "x", None
+        # a scalar may live on any of the four position pairs (tracer, u-, v- or vorticity points)
+        dY, dX = [("y", "x"), ("y", "xs"), ("ys", "x"), ("ys", "xs")][desc["shuffle_seed"] % 4 if desc["shuffle_seed"] % 3 == 0 else 0]
+        va = None
     elif mode == "u":
         dY, dX, va = "y", "xs", "X"
     else:
